@@ -29,11 +29,29 @@ func runGROUP(c *Ctx, r *Result, rule string) int {
 	}
 	n := 0
 	ord := 0
-	for _, ins := range instrsIn(f) {
-		mu, ok := ins.(*ssa.MapUpdate)
-		if !ok {
+	// the stores into the key map: in the function itself and in the helpers of the package it
+	// hands the map to (recognised by the map's type, the type of the function's result)
+	var mapT types.Type
+	if f.Signature.Results().Len() > 0 {
+		if _, isMap := f.Signature.Results().At(0).Type().Underlying().(*types.Map); isMap {
+			mapT = f.Signature.Results().At(0).Type()
+		}
+	}
+	var stores []*ssa.MapUpdate
+	for _, g := range withCallees(c, []*ssa.Function{f}, 2) {
+		if g != f && mapT == nil {
 			continue
 		}
+		for _, ins := range instrsIn(g) {
+			if mu, ok := ins.(*ssa.MapUpdate); ok && (g == f || types.Identical(mu.Map.Type(), mapT)) {
+				stores = append(stores, mu)
+			}
+		}
+	}
+	top := f
+	for _, mu := range stores {
+		f := mu.Parent()
+		_ = top
 		ord++
 		n++
 		o := Obligation{Rule: rule, Key: fmt.Sprintf("groupItemsByKey:store#%d", ord), Fn: shortFn(f), Pos: c.W.Pos(mu.Pos()), Nontrivial: true}
@@ -200,18 +218,54 @@ func runKEYS(c *Ctx, r *Result, rule string) int {
 		}
 		return nil
 	})
-	read := stringConstsIn(rd, func(ins ssa.Instruction) ssa.Value {
-		call, ok := ins.(*ssa.Call)
-		if !ok || staticName(call) != "reflect.Value.MapIndex" {
-			return nil
-		}
-		if vo, ok := call.Call.Args[1].(*ssa.Call); ok && staticName(vo) == "reflect.ValueOf" {
-			if mi, ok := vo.Call.Args[0].(*ssa.MakeInterface); ok {
-				return mi.X
+	// the member names read: the constant keys of MapIndex calls in callMatchFunc and in the helpers
+	// of the package it calls; a helper that takes the name as a parameter reads the names its
+	// callers pass
+	readSet := map[string]bool{}
+	rdFns := withCallees(c, []*ssa.Function{rd}, 1)
+	for _, g := range rdFns {
+		for _, ins := range instrsIn(g) {
+			call, ok := ins.(*ssa.Call)
+			if !ok || staticName(call) != "reflect.Value.MapIndex" {
+				continue
+			}
+			vo, ok := call.Call.Args[1].(*ssa.Call)
+			if !ok || staticName(vo) != "reflect.ValueOf" {
+				continue
+			}
+			mi, ok := vo.Call.Args[0].(*ssa.MakeInterface)
+			if !ok {
+				continue
+			}
+			switch x := mi.X.(type) {
+			case *ssa.Const:
+				if x.Value != nil && x.Value.Kind() == constant.String {
+					readSet[constant.StringVal(x.Value)] = true
+				}
+			case *ssa.Parameter:
+				idx := -1
+				for i, p := range g.Params {
+					if p == x {
+						idx = i
+					}
+				}
+				for _, h := range rdFns {
+					for _, ci := range callsIn(h) {
+						if ci.Common().StaticCallee() == g && idx >= 0 && idx < len(ci.Common().Args) {
+							if k, isK := ci.Common().Args[idx].(*ssa.Const); isK && k.Value != nil && k.Value.Kind() == constant.String {
+								readSet[constant.StringVal(k.Value)] = true
+							}
+						}
+					}
+				}
 			}
 		}
-		return nil
-	})
+	}
+	var read []string
+	for s := range readSet {
+		read = append(read, s)
+	}
+	sort.Strings(read)
 	o := Obligation{Rule: rule, Key: "match-object:member-names", Fn: shortFn(rd), Pos: c.W.Pos(rd.Pos()), Nontrivial: true}
 	if len(written) >= 3 && strings.Join(written, ",") == strings.Join(read, ",") {
 		o.Verdict, o.Reason = Discharged, "the match object built by (*matchCallable).Call and the members callMatchFunc reads are the same set: "+strings.Join(written, ", ")
